@@ -22,7 +22,7 @@ func init() {
 	fw.Register(&fw.Check{
 		ID:    "C05",
 		Level: "exploration",
-		Rule: "cases: for each of 13 list kinds (parameter and result lists, block statements, statements of mixed kinds, bare break / continue statements, bare blocks, case-clause bodies, composite-literal elements, call arguments, struct fields, parenthesised value specs, and composite-literal elements / call arguments that are package-qualified identifiers restored with import management) and n = 1..3 " +
+		Rule: "cases: for each of 14 list kinds (multi-line raw string elements, parameter and result lists, block statements, statements of mixed kinds, bare break / continue statements, bare blocks, case-clause bodies, composite-literal elements, call arguments, struct fields, parenthesised value specs, and composite-literal elements / call arguments that are package-qualified identifiers restored with import management) and n = 1..3 " +
 			"elements (n = 4 and seeded longer lists in the thorough tier), EVERY assignment of None/NewLine/EmptyLine to Before/After of every element (3^(2n), exhaustive), combined with " +
 			"each comment pattern: none, End line comment, Start line comment, End \"\\n\", End \"\\n\\n\", End line comment + Start line comment. Reference model written from the " +
 			"statement: adjacent After/Before combine by max; one blank line iff that max is EmptyLine (or two explicit \"\\n\" decorations were given), none otherwise; Before of the first " +
@@ -35,7 +35,7 @@ func init() {
 			"top-level declarations are excluded: go/printer forces blank lines between declarations of different kinds regardless of positions",
 			"struct fields and parenthesised specs: gofmt strips blank lines directly after '{'/'(' and before '}'/')', so only between-element blank lines are asserted there",
 		},
-		Required: map[string]int{"list_kinds": 13, "patterns": 9},
+		Required: map[string]int{"list_kinds": 14, "patterns": 9},
 	})
 }
 
@@ -49,6 +49,7 @@ type c05Kind struct {
 	imports   bool // elements are package-qualified identifiers: decorated and restored with import management
 	keywords  bool // elements are bare break / continue statements (located by keyword, not by name)
 	blocks    bool // elements are bare blocks "{ }" (two lines each: located by their braces)
+	rawStr    bool // elements are raw string literals that span four lines (with an empty line inside)
 	// openDecs returns the decoration list that sits directly after the opening delimiter of the
 	// container (BlockStmt.Lbrace, CompositeLit.Lbrace, CallExpr.Lparen, CaseClause.Colon ...)
 	openDecs func(f *dst.File) *dst.Decorations
@@ -214,6 +215,24 @@ var c05Kinds = []c05Kind{
 			return out
 		},
 		openDecs: func(f *dst.File) *dst.Decorations { return &f.Decls[0].(*dst.FuncDecl).Type.Results.Decs.Opening }},
+	{name: "composite-literal-raw-strings", edges: true, exprList: true, rawStr: true,
+		// elements that span several lines themselves: the line table must account for every line
+		// feed inside the literal, empty lines included
+		tmpl: func(n int) string {
+			s := "package p\n\nvar v = []string{\n"
+			for _, e := range names(n) {
+				s += "\t\x60" + e + "\n\nx\ny\x60,\n"
+			}
+			return s + "}\n"
+		},
+		elems: func(f *dst.File, n int) []dst.Node {
+			var out []dst.Node
+			for _, e := range f.Decls[0].(*dst.GenDecl).Specs[0].(*dst.ValueSpec).Values[0].(*dst.CompositeLit).Elts {
+				out = append(out, e)
+			}
+			return out
+		},
+		openDecs: func(f *dst.File) *dst.Decorations { return &valueOf2(f).(*dst.CompositeLit).Decs.Lbrace }},
 	{name: "composite-literal-qualified", edges: true, exprList: true, imports: true,
 		tmpl: func(n int) string {
 			s := "package p\n\nimport \"x/pk\"\n\nvar v = []int{\n"
@@ -449,7 +468,14 @@ func c05Case(c *fw.Ctx, kind c05Kind, n int, pattern string, sp []dst.SpaceType,
 			line[name] = t.Line
 			elemTok[name] = i
 		}
-		if !kind.keywords && !kind.blocks && t.Tok == token.IDENT && strings.HasPrefix(t.Lit, "elem") {
+		if kind.rawStr && t.Tok == token.STRING && strings.HasPrefix(t.Lit, "`elem") {
+			name := strings.SplitN(strings.TrimPrefix(t.Lit, "`"), "\n", 2)[0]
+			line[name] = t.Line
+			endLine[name] = t.Line + strings.Count(t.Lit, "\n")
+			elemTok[name] = i
+			endTok[name] = i
+		}
+		if !kind.keywords && !kind.blocks && !kind.rawStr && t.Tok == token.IDENT && strings.HasPrefix(t.Lit, "elem") {
 			if _, seen := elemTok[t.Lit]; !seen {
 				elemTok[t.Lit] = i
 			}
@@ -644,6 +670,12 @@ func c05EdgeCalibration(kind c05Kind) (open, close bool) {
 	if v, ok := c05Calib[kind.name]; ok {
 		return v[0], v[1]
 	}
+	if kind.rawStr {
+		// the elements span several lines: the textual probe below cannot place a blank line next
+		// to them; the edges of this kind are not judged, only the spacing between elements
+		c05Calib[kind.name] = [2]bool{false, false}
+		return false, false
+	}
 	if kind.blocks {
 		// the container is a function body, as for block-statements: use that calibration
 		for _, k := range c05Kinds {
@@ -801,4 +833,8 @@ func runC05(c *fw.Ctx) {
 		})
 	}
 	_ = reflect.TypeOf
+}
+
+func valueOf2(f *dst.File) dst.Expr {
+	return f.Decls[0].(*dst.GenDecl).Specs[0].(*dst.ValueSpec).Values[0]
 }
